@@ -1164,4 +1164,41 @@ theorem C18_preactivation_po2_po2_partial (kind : LayerKind) (x w : QRec) (shape
     · simp only [List.length_zipWith, Bool.false_eq_true, if_false, Nat.add_zero]
       exact hn
 
+/-! ## Grouped convolutions (`groups > 1`; strengthening round, seed C18-12) -/
+
+/-- The Keras kernel of a grouped convolution is `ks ++ [cin / groups, filters]`: its axis −2 is ALREADY the
+    per-group fan-in, so the term count `generate_layer_data_type_map` sizes the kernel accumulator with is
+    `prod ks * (cin / groups)` — exactly the number of products one output element sums.  `C18_preactivation`
+    therefore covers grouped `QConv1D` / `QConv2D` layers with the kernel shape taken as it is. -/
+theorem C18_grouped_fanin (ks : List ℕ) (cpg f : ℕ) :
+    kernelTerms (accShape .conv2d (ks ++ [cpg, f])) = ks.foldl (· * ·) 1 * cpg ∧
+    kernelTerms (accShape .conv1d (ks ++ [cpg, f])) = ks.foldl (· * ·) 1 * cpg := by
+  have h : ks ++ [cpg, f] = (ks ++ [cpg]) ++ [f] := by simp
+  constructor <;>
+    simp only [accShape, kernelTerms, h, List.dropLast_concat, List.foldl_append, List.foldl_cons,
+      List.foldl_nil]
+
+/-- Dividing the fan-in by `groups` once more is unsound: `QConv2D(8, (1,1), groups=2)` on 8 input channels has the
+    kernel `(1, 1, 4, 8)` — four products per output.  Sized for `(1, 1, 2, 8)` the reported accumulator is
+    `(7 bits, 1 int bit, signed)`, values `< 2`; weights `3/4` of `quantized_bits(3,0)` and inputs `7/8` of
+    `quantized_bits(4,0)` (no most-negative product) give `4 · 21/32 = 21/8`. -/
+theorem C18_grouped_double_division_counterexample :
+    let w : QRec := { tQuantizedBits with bits := 3, intBits := 0, signed := true }
+    let x : QRec := { tQuantizedBits with bits := 4, intBits := 0, signed := true }
+    Val w (3/4) ∧ Val x (7/8) ∧
+    kernelTerms (accShape .conv2d [1, 1, 4, 8]) = 4 ∧
+    (∃ lt, layerTypes .conv2d x w none [1, 1, 2, 8] = some lt ∧
+      lt.accumulator = { tQuantizedBits with bits := 7, intBits := 1, signed := true } ∧
+      ¬ Val lt.accumulator (dot [3/4, 3/4, 3/4, 3/4] [7/8, 7/8, 7/8, 7/8])) := by
+  refine ⟨⟨3, by decide, by decide, by simp [fixedLsb, b2i, tQuantizedBits, pow2] <;> norm_num⟩,
+    ⟨7, by decide, by decide, by simp [fixedLsb, b2i, tQuantizedBits, pow2] <;> norm_num⟩,
+    by decide,
+    ⟨_, rfl, by decide, not_val_of_eq
+      (q' := { tQuantizedBits with bits := 7, intBits := 1, signed := true }) (by decide) ?_⟩⟩
+  simp only [Val, tQuantizedBits]
+  rw [valFixed_iff (by decide)]
+  rintro ⟨_, _, h⟩
+  simp [dot, pow2] at h
+  all_goals (norm_num at h)
+
 end QKV.Props.C18
